@@ -648,7 +648,7 @@ class Prop:
             d = gen_def(rng)
             d["relations"] = [r for r in d["relations"] if r[0] != "__root__"]
             yield dict(d, typed=rng.random() < 0.5, stream=gen_stream(rng))
-        ndefs = 150 if tier == "quick" else 1500
+        ndefs = 150 if tier == "quick" else 1000
         for _ in range(ndefs):
             d = gen_def(rng)
             for _ in range(2 if tier == "quick" else 3):
@@ -717,7 +717,9 @@ class Prop:
                 err = e
         rk = ranks(desc)
         coq_rk = H.coq_list(f"({H.coq_text(t)}, {n})" for t, n in (rk or {}).items())
-        coq_in = f"(CBuild {H.coq_bool(desc['typed'])} {coq_def(desc)} {fuel} {coq_rk} {coq_stream(desc['stream'])})"
+        # the model gets the draws the implementation consumed plus a margin (enough to notice a model that
+        # consumes more); the full stream stays in the desc
+        coq_in = f"(CBuild {H.coq_bool(desc['typed'])} {coq_def(desc)} {fuel} {coq_rk} {coq_stream(desc['stream'][:st.pos + 6])})"
         no_root = not any(p == "__root__" for p, _ in desc["relations"])
         if err is not None:
             refused = no_root and isinstance(err, AssertionError)      # assert "__root__" in relations
